@@ -1,26 +1,38 @@
 (* C14 -- property theorems only.  Each is closed by `exact` of a lemma from
    proofs/ and followed by Print Assumptions.  The shape switches come from
-   coq/gen/GenC14.v (regenerated from the working tree on every run); the premises
-   `switch = true` of the lemmas are discharged by eq_refl, so
+   coq/gen/GenC14.v (regenerated from the working tree on every run).
+
+   The premises `switch = true` of the lemmas for the five repairs that are in /repo are
+   discharged by eq_refl, so
    - C14_comm / C14_assoc only type-check when dagrt.data.unify accepts Integer in both asserts
      (fixes/C14_unify_symmetric.patch),
    - C14_order_independent_partial additionally needs SymbolKindTable.set to flag an insertion
      as a change (fixes/C14_set_insert_changed.patch),
-   - C14_order_independent additionally needs set to re-raise a failing unification
-     (fixes/C14_set_reraises.patch) and the finder to register loop variables up front
-     (fixes/C14_loop_variables_prepass.patch).
-   For the defective shapes proofs/ holds the refutations (UnifyProofs.unify_comm_refuted_*,
-   unify_assoc_refuted_*, KindFinderExamples.insert_unflagged_refuted, first_kind_wins_refuted,
-   full_statement_refuted, KindCfgProofs.gen_full_statement_refuted). *)
+   - C14_order_independent / C14_infer_kinds_phase_order additionally need set to re-raise a
+     failing unification (fixes/C14_set_reraises.patch), the finder to register loop variables
+     up front (fixes/C14_loop_variables_prepass.patch) and infer_kinds to have its pinned text.
+   Two repairs are pending (fixes/C14_worklist_restart.patch, C14_matrix_builtins_need_arrays.patch);
+   their switches stay PREMISES here, so that this file type-checks before and after they are
+   applied: on a tree where a premise is false the theorem says nothing about that tree and the
+   matching refutation below is the live statement (harness/c14.py reports which of the two it is
+   and raises the alarm when a premise is false without an open known finding).
+   For the defective shapes of the five older switches proofs/ holds the refutations
+   (UnifyProofs.unify_comm_refuted_*, unify_assoc_refuted_*, KindFinderExamples.
+   insert_unflagged_refuted, first_kind_wins_refuted, full_statement_refuted,
+   KindCfgProofs.gen_full_statement_refuted). *)
 From Coq Require Import List String Bool Permutation.
-From Dagrt Require Import GenC14 Unify KindInfer KindInferCfg UnifyProofs KindInferProofs
-  KindFinderProofs KindFinderFull KindFinderExamples KindCfgProofs.
+From Dagrt Require Import GenC14 Unify KindOrder KindInfer KindInferCfg UnifyProofs KindRegistryProofs
+  KindInferProofs KindFinderProofs KindFinderFull KindFinderExamples KindCfgProofs.
 
-(* Order independence at full strength, for the code as it is now (gen_cfg): the same
+(* Order independence at full strength, for the code as it is now (the model configured by
+   GenC14.v, the base function registry extended by any registered user functions): the same
    (phase, statement) pairs presented in another order give the same outcome -- both runs fail,
    or both return equal tables -- fuel exhaustion aside.  Inputs: no empty product in a
    flattened right-hand side, forced kinds are not None. *)
-Definition C14_full_statement : Prop := full_statement gen_cfg.
+Definition C14_full_statement : Prop := forall extra, full_statement (gen_cfg_with extra).
+
+(* ... and infer_kinds(dag) does not depend on the order in which dag.phases lists the phases *)
+Definition C14_glue_statement : Prop := forall extra, glue_statement (gen_cfg_with extra).
 
 Theorem C14_idem : forall k r, gen_unify k k = Ok r -> r = k.
 Proof. exact (unify_idem unify_usertype_accepts_int unify_array_accepts_int). Qed.
@@ -40,18 +52,56 @@ Theorem C14_assoc : forall a b c,
 Proof. exact (gen_unify_assoc eq_refl eq_refl). Qed.
 Print Assumptions C14_assoc.
 
-Theorem C14_order_independent : C14_full_statement.
+(* The result kinds of every registered function are monotone in the argument kinds (an unknown
+   argument is below everything; failing = unable to infer): the lemma about the registry that
+   order independence rests on. *)
+Theorem C14_registry_monotone :
+  builtins_require_arrays = true ->
+  forall sg vals vals' kwn, Forall2 wle vals vals' ->
+    krel (call_kinds builtins_require_arrays sg vals kwn) (call_kinds builtins_require_arrays sg vals' kwn).
+Proof. exact gen_registry_monotone. Qed.
+Print Assumptions C14_registry_monotone.
+
+Theorem C14_order_independent :
+  finder_restarts_after_change = true -> builtins_require_arrays = true -> C14_full_statement.
 Proof. exact (gen_order_independent eq_refl eq_refl eq_refl eq_refl eq_refl). Qed.
 Print Assumptions C14_order_independent.
 
-(* Weaker, but needs only the first two repairs: two runs on permuted statement lists that both
-   return a table, and in which no failed unification was printed-and-ignored, return equal tables. *)
-Theorem C14_order_independent_partial : forall fuel fuel' forced all all' T T',
+Theorem C14_infer_kinds_phase_order :
+  finder_restarts_after_change = true -> builtins_require_arrays = true -> C14_glue_statement.
+Proof.
+  exact (fun Hr Ha => gen_infer_kinds_phase_order eq_refl eq_refl eq_refl eq_refl eq_refl Hr Ha eq_refl).
+Qed.
+Print Assumptions C14_infer_kinds_phase_order.
+
+(* Weaker, but needs neither the re-raise, nor the loop-variable pre-pass, nor the restart: two runs
+   on permuted statement lists that both return a table, and in which no failed unification was
+   printed-and-ignored, return equal tables. *)
+Theorem C14_order_independent_partial :
+  builtins_require_arrays = true ->
+  forall extra fuel fuel' forced all all' T T',
   Permutation all all' ->
   (forall it, In it all -> wf_item it) ->
   (forall p x k, In (p, x, k) forced -> k <> None) ->
-  run_queue gen_cfg fuel forced all = OTable T false ->
-  run_queue gen_cfg fuel' forced all' = OTable T' false ->
+  run_queue (gen_cfg_with extra) fuel forced all = OTable T false ->
+  run_queue (gen_cfg_with extra) fuel' forced all' = OTable T' false ->
   table_equiv T T'.
 Proof. exact (gen_order_independent_partial eq_refl eq_refl eq_refl). Qed.
 Print Assumptions C14_order_independent_partial.
+
+(* The code as it is before the two pending repairs (witnesses: KindFinderExamples wW/wXi/wAbs and
+   wA1/wA2/wMM, replayed on the real code by harness/c14.py, corpus/C14). *)
+Theorem C14_refuted_gives_up_early : finder_restarts_after_change = false -> ~ C14_full_statement.
+Proof. exact (gen_gives_up_early_refuted eq_refl eq_refl eq_refl eq_refl eq_refl). Qed.
+Print Assumptions C14_refuted_gives_up_early.
+
+Theorem C14_refuted_scalar_matrix : builtins_require_arrays = false -> ~ C14_full_statement.
+Proof. exact (gen_scalar_matrix_refuted eq_refl eq_refl eq_refl eq_refl). Qed.
+Print Assumptions C14_refuted_scalar_matrix.
+
+Theorem C14_registry_monotone_refuted :
+  builtins_require_arrays = false ->
+  ~ (forall sg vals vals' kwn, Forall2 wle vals vals' ->
+       krel (call_kinds builtins_require_arrays sg vals kwn) (call_kinds builtins_require_arrays sg vals' kwn)).
+Proof. exact gen_registry_monotone_refuted. Qed.
+Print Assumptions C14_registry_monotone_refuted.
